@@ -133,7 +133,9 @@ func c10Leaves() []c10Leaf {
 		}
 		for _, op := range []string{"$bitsAllSet", "$bitsAnySet", "$bitsAllClear", "$bitsAnyClear"} {
 			for _, o := range []interface{}{int32(1), int32(3), bson.A{int32(1)}, bson.A{int32(0), int32(2)}, primitive.Binary{Data: []byte{4}}, int64(6),
-				int64(1 << 35), bson.A{int32(40)}, bson.A{int32(31), int32(32)}, bson.A{int32(63)}, primitive.Binary{Data: []byte{0, 0, 0, 0, 8}}} {
+				int64(1 << 35), bson.A{int32(40)}, bson.A{int32(31), int32(32)}, bson.A{int32(63)}, primitive.Binary{Data: []byte{0, 0, 0, 0, 8}},
+				// positions beyond the width of a number: numbers are sign-extended (set for negative, clear for positive numbers)
+				bson.A{int32(64)}, bson.A{int32(200), int32(0)}, primitive.Binary{Data: []byte{0, 0, 0, 0, 0, 0, 0, 0, 1}}} {
 				add(p, op, o)
 			}
 		}
